@@ -170,6 +170,14 @@ def R2_locked_row(ctx):
         arm = b.reachable(start=sel[1])
         wo = b.reachable(start=sel[1], removed_blocks=[w.bb])
         oka = all(bb not in wo for bb in ok_blocks if bb in arm) and any(bb in arm for bb in ok_blocks)
+        if not any(bb in arm for bb in ok_blocks):
+            # the Ok value may come out of a helper (`flush_if_due(..)` returned as it is): read the File arm's paths instead —
+            # every path that returns without being an Err value ran the write
+            try:
+                rows_ = [r for r in table(b, max_paths=50000) if r.end == "return" and r.sel.get(("arg", 1)) == "File" and not is_err_value(r.ret)]
+                oka = bool(rows_) and all(w.bb in r.path.blocks for r in rows_)
+            except TooManyPaths:
+                oka = False
     ctx.check(oka, "ok=>written", "the File arm can return Ok(()) without having written the row", b.where())
     # Combined forwards to all
     # (a loop over the inner sinks with `?`, or try_for_each over them)
